@@ -120,6 +120,18 @@ func jsonSafe(value string) string {
 	return "\x00" + enchex.EncodeToString([]byte(value))
 }
 
+// fromJSONSafe is the inverse of jsonSafe.
+func fromJSONSafe(value string) string {
+	if !strings.HasPrefix(value, "\x00") {
+		return value
+	}
+	raw, err := enchex.DecodeString(value[1:])
+	if err != nil {
+		return value
+	}
+	return string(raw)
+}
+
 func normalizeHeaderValueText(field, value string) string {
 	if value == "" {
 		return ""
